@@ -79,12 +79,20 @@ def storeSignJWSHeaders (found : Bool) (h : Headers) (kid : String) : Except JEr
   if !found then .error .keyNotFound
   else signJWSHeaders (hput (dedup h) "kid" (.str kid))
 
-/-- package-level `SignJWT`: `convertHeaders` sets every header, there is NO jwk rule here -/
+/-- package-level `SignJWT`: `convertHeaders` sets every header; then the same jwk rule as SignJWS (a `jwk` header whose
+    raw key is assignable to crypto.Signer is refused); `kid` is NOT removed here; jwt.Sign supplies `typ: JWT`. -/
 def signJWTHeaders (h : Headers) : Except JErr Headers :=
   if h.any (fun p => !settable p.1 p.2) then .error .invalidHeaders
   else
-    let out := alDel h "alg"
-    .ok (if (hget out "typ").isNone then hput out "typ" (.str "JWT") else out)   -- jwt.Sign supplies `typ: JWT`
+    match hget h "jwk" with
+    | some (.jwk rawType _) =>
+      if assignableToSigner rawType then .error .privateJwk
+      else
+        let out := alDel h "alg"
+        .ok (if (hget out "typ").isNone then hput out "typ" (.str "JWT") else out)
+    | _ =>
+      let out := alDel h "alg"
+      .ok (if (hget out "typ").isNone then hput out "typ" (.str "JWT") else out)
 
 /-- `Crypto.SignJWT` / `MemoryJWTSigner.SignJWT`: headers are copied, `kid` is set, then the package-level function -/
 def storeSignJWTHeaders (found : Bool) (h : Headers) (kid : String) : Except JErr Headers :=
@@ -101,5 +109,27 @@ def didJwkOutcome (rawType : String) : String :=
   if ["*rsa.PrivateKey", "*ecdsa.PrivateKey", "ed25519.PrivateKey", "x25519.PrivateKey"].contains rawType then "forbidden-private"
   else if rawType = "[]uint8" then "resolved-WITH-SECRET"    -- a symmetric key has no public half: echoed as is
   else "resolved"
+
+/-! ### the audit record of a signing request: written FIRST (before any header is looked at), and worded from the
+   `kid` header / the issuer and subject claims only -/
+
+/-- `fmt.Sprintf("%s", protectedHeaders["kid"])` for the header values the harness generates as `kid`;
+    `none` = a value whose Go rendering is not modelled (numbers, maps, lists) -/
+def kidText (h : Headers) : Option String :=
+  match hget h "kid" with
+  | some (.str s) => some s
+  | none => some "%!s(<nil>)"
+  | _ => none
+
+/-- package-level SignJWS / SignJWT: exactly one record, whatever happens afterwards (header error, refusal, success).
+    Fields of the record are the standard ones (actor, operation, event, module): no header content. -/
+def signAudit (jwt : Bool) (iss sub : String) (h : Headers) : Option (List (String × String)) :=
+  (kidText h).map fun k =>
+    if jwt then [("SignJWT", "Signing a JWT with key: " ++ k ++ " (issuer: " ++ iss ++ ", subject: " ++ sub ++ ")")]
+    else [("SignJWS", "Signing a JWS with key: " ++ k)]
+
+/-- key store / in-memory signer: nothing is written when the key is not found; else `kid` is the requested kid -/
+def storeSignAudit (jwt : Bool) (iss sub : String) (found : Bool) (h : Headers) (kid : String) : Option (List (String × String)) :=
+  if !found then some [] else signAudit jwt iss sub (hput (dedup h) "kid" (.str kid))
 
 end Nuts.C03
